@@ -371,7 +371,7 @@ func runSched(run *report.Run, e *kenv) {
 	bound := 2
 	budget := 25 * time.Second
 	if run.Thorough() {
-		bound, budget = 3, 100*time.Second
+		bound, budget = 3, 6*time.Minute
 	}
 	for _, sc := range schedScenarios(run.Thorough()) {
 		name := "sched:" + sc.name
